@@ -13,7 +13,7 @@ from fractions import Fraction as Fr
 from ..fold import Num, fold_num, fold_value, duplicate_keys
 from ..nf import Rat, C
 from ..source import AnchorError, Unsupported, norm
-from ..xlate import Interp, Raised, DictV, ListV
+from ..xlate import Interp, Raised, DictV, ListV, RankOrder
 from .. import xlate
 
 MOD = 'pmutt.constants'
@@ -151,6 +151,9 @@ def check(run, repo):
     # ---- convert_unit: shape for every pair ------------------------------
     I = interp_for_constants(repo)
     x = I.D.sym('x')
+    # branches on the number itself are followed for a generic non-zero argument (witness x = 1); the argument zero
+    # is a separate instance below
+    I.order = RankOrder({'x': 1}, const_ranks=True)
     units = sorted(type_dict)
     types = sorted(set(type_dict.values()))
     run.floor('quantity types', len(types), 10)
@@ -193,6 +196,12 @@ def check(run, repo):
                       m, m.functions['convert_unit'],
                       sample='convert_unit(x,%s,%s) == x*U[%s]/U[%s]' % (a, b, b, a) if pairs_ok % 97 == 0 else None)
             pairs_ok += 1
+            if thorough or b == sorted(by_type[tb])[-1]:
+                z = call(I, m, 'convert_unit', num=C(0), initial=a, final=b)
+                run.check(isinstance(z, Rat) and z.iszero(), 'SHAPE.convert', 'constants.convert_unit',
+                          'zero:%s->%s' % (a, b),
+                          'converting the number zero does not give zero (got %r): conversion is not '
+                          'proportional to its argument' % (z,), m, m.functions['convert_unit'])
     # num omitted -> factor only
     r = call(I, m, 'convert_unit', initial='J', final='kJ')
     run.check(isinstance(r, Rat) and r.eq(I.D.sym('unit_dict[kJ]') / I.D.sym('unit_dict[J]')),
